@@ -341,7 +341,9 @@ def execute(ctx, case):
 
     descriptors, indent = CONFIGS[case["cfg"]]
     focus = (case["t"], case["vc"]) if case["k"] == "cell" else None
-    records = build_sequence(case["s"], thorough=not ctx.quick, focus=focus)
+    # JSON has no length classes (unlike msgpack): the 1 MiB strings / 65536-element lists of gen's thorough mode add
+    # nothing here, so both tiers use the quick-size pools (70000-char strings, 3000-element lists); thorough = more cases
+    records = build_sequence(case["s"], thorough=False, focus=focus)
     ctx.ev()
     cfgname = "desc=%s/indent=%s" % ("on" if descriptors else "off", indent)
     for r in records:
